@@ -93,8 +93,10 @@ CLAIMS = {
                  "breadth-first walker (the default mode): visit_dir(root) plus the queue loop under any plan is check_file folded over "
                  "the fuel-free level order, stopping at the limit, and the limited search reports the first min(N, M) rows of the "
                  "unlimited breadth-first search (bfs_streamed_any_plan, bfs_streamed_limit; drain_reached: the queue is still drained "
-                 "after the limit but nothing is examined). "
-                 "Several roots and the footer are decided by correspondence and by the oracle against the unlimited run for every N in 1..M+2."),
+                 "after the limit but nothing is examined). Several disjoint plain roots (each bfs or dfs with its own depth window): searched one "
+                 "after the other until the limit is reached, after which no root is examined; the limited search of all the roots reports the first "
+                 "min(N, M) rows of the unlimited search (roots_streamed_any_plan, roots_reached, roots_streamed_limit). "
+                 "Roots with options (symlinks, ignore files), overlapping roots and the footer are decided by correspondence and by the oracle against the unlimited run for every N in 1..M+2."),
         "ref": "DESIGN.md §4 C06",
     },
     "C07": {
